@@ -926,10 +926,13 @@ def needs_root_task(task_registry: TaskRegistry, expr: Any) -> bool:
         f"Could not find task `{expr.task_name}`, found options {list(task_registry._tasks.keys())}"
     )
 
+    # Task options are evaluated like arguments, so they must be concrete as well. Otherwise,
+    # their jobs would run parentless next to the root job.
     default_kwargs = get_arg_defaults(task, expr.args, expr.kwargs)
+    options = (task.get_task_options(), expr._options)
     return any(
         isinstance(arg, Expression)
-        for arg in iter_nested_value((expr.args, expr.kwargs, default_kwargs))
+        for arg in iter_nested_value((expr.args, expr.kwargs, default_kwargs, options))
     )
 
 
